@@ -262,9 +262,10 @@ seq_t dtw_distance{{ suffix }}{{ suffix2 }}(seq_t *s1, idx_t l1,
         ec = ec_next;
         // Deal with Psi-relaxation in last column
         if (settings->psi_1e != 0 && minj == l2 && l1 - 1 - i <= settings->psi_1e) {
-            assert(!(settings->window == 0 || settings->window == l2) || (i1 + 1)*length - 1 == curidx);
+            // The last in-band cell of this row (column l2-1) is stored at position l2 - skip.
+            // curidx cannot be used: it is stale when that cell was skipped (max_step, pruning).
+            curidx = i1 * length + l2 - skip;
             if (dtw[curidx] < psi_shortest) {
-                // curidx is the last value
                 psi_shortest = dtw[curidx];
             }
         }
